@@ -44,3 +44,17 @@ Proof. intros []; vm_compute; reflexivity. Qed.
 Lemma tiebreak_lex_accepted : forall fx,
   ok_history tiebreak_history (map sort_outs (run (mkVariant fx true) tiebreak_history)) = true.
 Proof. intros []; vm_compute; reflexivity. Qed.
+
+(* the hypotheses of the main theorem hold of stale_history under the pinned tie-break *)
+From Verif.C03 Require Import Order Resolver Sorter Refine Char Main.
+Lemma stale_history_hyps :
+  Forall (op_wf (mkVariant true false)) stale_history /\ order_ok (mkVariant true false) (net stale_history).
+Proof.
+  split.
+  - apply Forall_forall. intros o Io. unfold stale_history in Io. simpl in Io.
+    repeat (destruct Io as [<-|Io];
+            [simpl; try exact I; right; split; unfold no_slash; simpl; intuition discriminate|]).
+    contradiction.
+  - intros a b Ia Ib. vm_compute in Ia, Ib.
+    destruct Ia as [<-|[<-|[]]]; destruct Ib as [<-|[<-|[]]]; vm_compute; reflexivity.
+Qed.
